@@ -81,7 +81,7 @@ MANIFEST = dict(
 )
 
 IMPORTS = ['Coq.Lists.List', 'Coq.NArith.NArith', 'SV.Fmt.VpkDir', 'SV.SM.Vpk', 'SV.Fmt.VpkArchName', 'SV.SM.VpkCorr', 'SV.Gen.VpkPlace_gen',
-           'SV.Gen.VpkArchName_gen', 'SV.Fmt.VpkNullStr', 'SV.Gen.VpkNullStr_gen', 'SV.SM.VpkNested', 'SV.Gen.VpkNested_gen', 'SV.SM.VpkApi', 'SV.Gen.VpkApi_gen', 'SV.SM.VpkNestedMap', 'SV.SM.VpkPlace', 'SV.Fmt.VpkNameJoin', 'SV.Gen.VpkNames_gen', 'SV.Fmt.VpkDirProg', 'SV.Fmt.VpkDirRead', 'SV.Gen.VpkDirProg_gen', 'SV.SM.VpkPlaceTable', 'SV.SM.VpkGenMachine']
+           'SV.Gen.VpkArchName_gen', 'SV.Fmt.VpkNullStr', 'SV.Gen.VpkNullStr_gen', 'SV.SM.VpkNested', 'SV.Gen.VpkNested_gen', 'SV.SM.VpkApi', 'SV.Gen.VpkApi_gen', 'SV.SM.VpkNestedMap', 'SV.SM.VpkPlace', 'SV.Fmt.VpkNameJoin', 'SV.Gen.VpkNames_gen', 'SV.Fmt.VpkDirProg', 'SV.Fmt.VpkDirRead', 'SV.Gen.VpkDirProg_gen', 'SV.SM.VpkPlaceTable', 'SV.SM.VpkGenMachine', 'SV.SM.VpkWriteOrder']
 PRE = 'Import ListNotations. Open Scope N_scope.\n'
 
 R_OK, R_RO, R_EXISTS, R_MISSING, R_BADNAME, R_BADIDX, R_BADDIR, R_EXC = 0, 1, 2, 3, 4, 5, 6, 9
@@ -1616,6 +1616,9 @@ def run(ck: Ck) -> None:
             'write_with_unchanged_checksum_has_no_effect': 'g_same_crc_skips',
             'read_and_verify_take_the_bytes_from_where_write_put_them': 'read_table_ok g_read_table',
             'archive_index_validated': 'g_chk_idx',
+            # FileInfo.write executed in the rejection scenarios (read-only / index out of range / both): premise of c13_guarded_write_is_model,
+            # c13_rejected_write_stores_nothing, c13_write_step_is_generated_tables
+            'write_validations_all_precede_the_first_store': 'rej_table_ok g_rej_table',
             'unrepresentable_names_rejected': 'g_chk_name',
             'instance_satisfies_theorem_premises': 'andb (vcfg_ok (g_vcfg true (Some 1024%N))) (vcfg_ok (g_vcfg false None))',
             'ext_split_is_at_the_last_dot': 'split_kind_ok g_ext_split',
@@ -1641,6 +1644,9 @@ def run(ck: Ck) -> None:
             'c13_property_hypotheses_hold_for_todays_source':
                 'andb (c13_hyps g_exit_table (g_vcfg true (Some 1024%N)) g_place_table g_read_table g_ins_ext g_ins_dir g_del_prog g_ncodec g_wprog g_rprog g_ext_split g_parts g_join_table g_ncfg) '
                 '(c13_hyps g_exit_table (g_vcfg false None) g_place_table g_read_table g_ins_ext g_ins_dir g_del_prog g_ncodec g_wprog g_rprog g_ext_split g_parts g_join_table g_ncfg)',
+            'c13_error_path_hypotheses_hold_for_todays_source':
+                'andb (c13_hyps_r5 g_exit_table (g_vcfg true (Some 1024%N)) g_place_table g_read_table g_ins_ext g_ins_dir g_del_prog g_ncodec g_wprog g_rprog g_ext_split g_parts g_join_table g_ncfg g_rej_table) '
+                '(c13_hyps_r5 g_exit_table (g_vcfg false None) g_place_table g_read_table g_ins_ext g_ins_dir g_del_prog g_ncodec g_wprog g_rprog g_ext_split g_parts g_join_table g_ncfg g_rej_table)',
             'write_dirfile_program_is_the_directory_encoder': 'wprog_ok g_wprog',
             'write_dirfile_refuses_version_2_before_opening_the_file': 'g_write_refuses_v2',
             'write_dirfile_loops_ext_folder_file_sorted': 'andb (w_nest_ok g_wprog) (w_sorted g_wprog)',
